@@ -372,7 +372,7 @@ impl<'a> Chk<'a> {
             _prim => {
                 // primitive mapping is not part of the property; it must be a plain name / simple union, not an object with members
                 if let Ts::Obj(m, _) = got {
-                    if exp.kind() != "OCTETSTRING" && !m.is_empty() && !matches!(exp, Ty::Octets) {
+                    if exp.kind() != "OCTETSTRING" && exp.kind() != "BITSTRING" && !m.is_empty() && !matches!(exp, Ty::Octets) {
                         // BIT STRING style objects are fine for bit strings only (not in this alphabet)
                         self.d(format!("ts|ctx={ctx}|comp={}|kind=primitive-shape", ctx_kind(exp)), format!("{got:?}"));
                     }
